@@ -178,8 +178,8 @@ def _increment(b, acc, rv):
     return None
 
 
-def rule_prefix_sum(ctx):
-    f = ctx.facts()
+def rule_prefix_sum(ctx, config='dev'):
+    f = ctx.facts(config)
     r = RuleResult('PREFIX-SUM', 'the (piece, offset) pairs of a rope chunk vector carry running totals: the offset stored with a piece '
                                  'is 0, a total of the vector it is appended to, or an accumulator whose next update adds exactly the '
                                  'length of the stored piece; pairs are not bulk-copied into a vector that already holds one')
